@@ -122,6 +122,50 @@ func govcC18FixedGroupingImportBindingStale(fail func(string, ...interface{})) {
 	}
 }
 
+// A type reached through a local typedef follows the imported module as a direct reference
+// does: base@2020 and a user, Process, base@2021, Process -- against the three texts in a fresh set.
+func govcC18FixedTypedefOverImportedType(fail func(string, ...interface{})) {
+	b1 := `module b { namespace "urn:b"; prefix b; revision 2020-01-01; typedef bt { type string; units old; default "o"; } }`
+	b2 := `module b { namespace "urn:b"; prefix b; revision 2021-01-01; typedef bt { type uint8; units new; default "7"; } }`
+	u := `module u { namespace "urn:u"; prefix u; import b { prefix b; } typedef ut { type b:bt; } typedef ut2 { type ut; } leaf direct { type b:bt; } leaf via { type ut; } leaf via2 { type ut2; } }`
+	show := func(ms *Modules) string {
+		errs := ms.Process()
+		e := ToEntry(ms.Modules["u"])
+		out := fmt.Sprintf("errs=%v", errs)
+		for _, n := range []string{"direct", "via", "via2"} {
+			if l := e.Dir[n]; l != nil && l.Type != nil {
+				out += fmt.Sprintf(" %s=%v/%s/%v", n, l.Type.Kind, l.Type.Units, l.DefaultValues())
+			}
+		}
+		return out
+	}
+	inc := NewModules()
+	inc.Parse(b1, "b1.yang")
+	inc.Parse(u, "u.yang")
+	_ = show(inc)
+	inc.Parse(b2, "b2.yang")
+	got := show(inc)
+	fresh := NewModules()
+	fresh.Parse(b1, "b1.yang")
+	fresh.Parse(u, "u.yang")
+	fresh.Parse(b2, "b2.yang")
+	if want := show(fresh); got != want {
+		fail("incremental %s, fresh %s", got, want)
+	}
+	// and an unknown type through a typedef is forgotten once the module that defines it is there
+	inc = NewModules()
+	inc.Parse(u, "u.yang")
+	_ = show(inc)
+	inc.Parse(b2, "b2.yang")
+	got = show(inc)
+	fresh = NewModules()
+	fresh.Parse(u, "u.yang")
+	fresh.Parse(b2, "b2.yang")
+	if want := show(fresh); got != want {
+		fail("after the missing module arrived: incremental %s, fresh %s", got, want)
+	}
+}
+
 func TestGovcBoundedC18FixedHistories(t *testing.T) {
 	n := 0
 	run := func(name string, f func(func(string, ...interface{}))) {
@@ -134,5 +178,6 @@ func TestGovcBoundedC18FixedHistories(t *testing.T) {
 	run("search path after a refused file", govcC18FixedFailedReadLeavesPath)
 	run("ClearEntryCache after Process", govcC18FixedClearEntryCacheAfterProcess)
 	run("imports bound by an earlier run", govcC18FixedGroupingImportBindingStale)
+	run("a typedef over an imported type", govcC18FixedTypedefOverImportedType)
 	fmt.Printf("GOVC-BOUNDED name=c18-fixed-histories bound=%d_fixed_histories_against_a_fresh_set evaluations=%d distinct=%d\n", n, n, n)
 }
